@@ -219,6 +219,13 @@ retry:
     bool tuple_pushed_num{false};
 
     border_node* bn = *target;
+    // a visited border must be part of the node set even if it only contributed links
+    auto record_border_if_unrecorded = [&tuple_pushed_num, &node_version_vec, &v_at_fb, &bn]() {
+        if (!tuple_pushed_num && node_version_vec != nullptr) {
+            node_version_vec->emplace_back(
+                    std::make_pair(v_at_fb, bn->get_version_ptr()));
+        }
+    };
     /**
      * next node pointer must be logged before optimistic verify.
      * When right_to_left is true, we stop at the first border node and don't use this.
@@ -309,9 +316,13 @@ retry:
                                      r_key.size() < full_key.size()
                                              ? r_key.size()
                                              : full_key.size());
-                if (ret_cmp < 0) { return status::OK_SCAN_END; }
+                if (ret_cmp < 0) {
+                    record_border_if_unrecorded();
+                    return status::OK_SCAN_END;
+                }
                 if (ret_cmp == 0) {
                     if (r_key.size() <= full_key.size()) {
+                        record_border_if_unrecorded();
                         return status::OK_SCAN_END;
                     }
                     arg_r_key = r_key;
@@ -330,6 +341,7 @@ retry:
                 goto retry; // NOLINT
             }
             if (max_size != 0 && tuple_list.size() >= max_size) {
+                record_border_if_unrecorded();
                 return status::OK_SCAN_END;
             }
         } else {
